@@ -253,7 +253,18 @@ def jobs(tier, seed):
             ("indexed", "nonlinear", "scipy", [(1, False, 2, 12)]),
             ("hist", "nonlinear", "scipy", [(1, False, 1, 2), (1, True, 1, 2)]),
         ]
-        vals = [0, 1, 2]
+        vals = [v]
+        # the quick plan on the two other valuations
+        for qf, qd, qm, qsts in [
+            ("xy", "nonlinear", "iminuit", [(1, False, 2, 8), (2, False, 2, 8), (2, True, 1, 2)]),
+            ("indexed", "nonlinear", "iminuit", [(1, False, 2, 6), (2, True, 1, 2)]),
+            ("hist", "nonlinear", "iminuit", [(0, False, 2, 3), (1, True, 1, 1)]),
+            ("unbinned", "nonlinear", "iminuit", [(0, False, 2, 2)]),
+        ]:
+            for vv in [(v + 1) % 3, (v + 2) % 3]:
+                for si, fitted_start, L, nshard in qsts:
+                    for sh in range(nshard):
+                        specs.append((qf, qd, qm, vv, si, fitted_start, L, "thorough-L3", sh, nshard))
         for vv in [v]:
             for ftype, si, nsh in (("xy", 1, 48), ("indexed", 1, 32)):
                 for sh in range(nsh):
@@ -269,7 +280,7 @@ def jobs(tier, seed):
 def bound(tier, seed):
     if tier == "quick":
         return "base mutator sequences of length <= 2 from 2-3 start states (bare / sources / x+y+model-relative), each also after do_fit; one neutral segment (read of any of ~22 observables, or a cancelling pair) at any position; xy+indexed+hist+unbinned with iminuit/nonlinear and xy with scipy/iterative; valuation %d" % (seed % 3)
-    return "base sequences of length <= 2 with the full observable (21) and source-kind alphabets on all fit types, both algorithms and both backends, valuations 0,1,2; base sequences of length 3 for xy and indexed fits (iminuit, nonlinear, quick alphabets, one valuation); one neutral segment at any position"
+    return "base sequences of length <= 2 with the full observable (21) and source-kind alphabets on all fit types, both algorithms and both backends (one valuation), the quick plan on the two other valuations; base sequences of length 3 for xy and indexed fits (iminuit, nonlinear, quick alphabets, one valuation); one neutral segment at any position"
 
 
 def run_job(spec):
